@@ -2,6 +2,7 @@
 from __future__ import annotations
 import json
 from .units.r import UnitR
+from .units.m import UnitM
 from .units import r_replay
 
 
@@ -66,6 +67,19 @@ PROPS['C06'].update({
                   'length/enumeration facets on integer carriers (dom). Known finding: numerals beyond i128 (String carrier).',
 })
 
+PROPS['C19'] = {
+    'units': [UnitM], 'level': 'proof', 'design_ref': 'DESIGN.md 4.19',
+    'scope': 'every impl of helpers_content.rs::multi_ref (new, CheckRestrictions, YaDeserialize, YaSerialize incl. '
+             'serialize_attributes, Default, Clone, Deref), generically in T',
+    'level_text': 'Deductive proof (Verus/Z3), for ALL T, that each forwarding impl of MultiRef<T> has exactly the effect of the '
+                  'wrapped value\'s impl: serialize / serialize_attributes / deserialize equal T\'s uninterpreted effect functions, '
+                  'check_restrictions has T\'s verdict, clone and deref preserve the value. Bodies copied byte-exact from /repo.',
+    'level_note': 'Trusted: contract-only declarations of yaserde::{YaSerialize,YaDeserialize} (real 0.12 signatures), xml types, '
+                  'vstd\'s Arc model; that yaserde_derive calls exactly these trait methods for a MultiRef<T> field. '
+                  '"clones share" is proved as value equality through Arc::clone (pointer identity is a Kani harness in the thorough tier).',
+    'assumptions': ['yaserde/xml-rs stand-ins in contracts/dep_yaserde.rs', 'vstd model of Arc (transparent in specifications)'],
+}
+
 PLANNED = 'claimed in DESIGN.md but the check is not built yet at this commit (listed here so that no unbuilt check is advertised)'
 NOT_APPLICABLE = {
     'C01': 'Compilability of a whole emitted file is decided by rustc name resolution/type checking and yaserde_derive proc-macro expansion; no pre/postcondition of a zeep function entails it and Verus cannot load the dependency crates (DESIGN 4.1).',
@@ -76,7 +90,7 @@ NOT_APPLICABLE = {
     'C17': 'Process-level observables (exit status, panics as error path, clap, File::create effects); no function result to attach a postcondition to and no file-system model in Verus/Kani (DESIGN 4.17).',
     'C18': 'Send/Sync are auto traits decided by rustc\'s trait solver over the real reqwest future types; neither verifier has a notion of auto traits (DESIGN 4.18).',
     'C02': PLANNED, 'C05': PLANNED, 'C07': PLANNED, 'C08': PLANNED, 'C09': PLANNED, 'C10': PLANNED,
-    'C13': PLANNED, 'C14': PLANNED, 'C15': PLANNED, 'C16': PLANNED, 'C19': PLANNED,
+    'C13': PLANNED, 'C14': PLANNED, 'C15': PLANNED, 'C16': PLANNED,
 }
 NOTES = ('All checks: ./check <id> [--tier quick|thorough]; exit 0 ok, 1 VIOLATION, 2 inconclusive (lost anchor / unsupported '
          'construct / solver limit / vacuity guard) which is never an alarm. Known findings: /verif/known_findings.json. '
